@@ -27,7 +27,7 @@ func init() {
 		Run:         runC03,
 		CaseTimeout: 0,
 		Rule: "case = (small configuration so that files roll over, key universe, single-threaded history of 30-80 calls with explicit Flush, index GC, primary GC, Close and reopen). The directory is imaged at EVERY hook point reached inside Flush/GC/Close/Open calls (hooks sit before each file-system mutation) and after every call; between consecutive images torn variants are synthesised (appended regions cut at 1,2,3,4,5,7,8,12,13,middle,n-5..n-1 bytes and around every record boundary - thorough: every byte for regions <= 512 B; rewritten files emptied and cut). Every image/variant is recovered: OpenStore must succeed, every key must read durable-or-acknowledged state, then the store is used further (puts that roll the files current at the crash, flushes, 2 primary + 2 index GC cycles, Close, reopen) under the C01/C04 oracle with fsck. " +
-			"non-trivial iff the case produced images inside a Flush with pending updates AND inside a GC cycle or Close; distinct = distinct hash of (hook, variant kind, image content). Churn histories (case index mod 16 == 1): 20-33 rounds of 1-2 writes + Flush on 60-150 byte index files with an index GC cycle every second round. Interleaved family (case index mod 4 == 3): crash states in which a flush AND a collector are both mid-way: a GC cycle (index or primary) is parked at one of its lock-free step points, a Flush with pending updates is started and parked at one of its own step points (pool swapped / before the log write / after it / between primary, index and freelist), the collector is released and runs to its end while the flush stays parked, then the flush finishes; only one of the two ever runs at a time, so the image taken at every hook point is a true point-in-time state; each is recovered under the same oracle. Legacy family (case index mod 16 == 9): the crash happens inside the Open that converts a legacy single-file store (generated as in C10, without dangling entries); every hook point of the conversion and its torn variants is recovered by opening again and must show the legacy store's contents, also after Flush and a rescanning reopen",
+			"non-trivial iff the case produced images inside a Flush with pending updates AND inside a GC cycle or Close; distinct = distinct hash of (hook, variant kind, image content). Churn histories (case index mod 16 == 1): 20-33 rounds of 1-2 writes + Flush on 60-150 byte index files with an index GC cycle every second round. Interleaved family (case index mod 4 == 3): crash states in which a flush AND a collector are both mid-way: a GC cycle (index or primary) is parked at one of its lock-free step points, a Flush with pending updates is started and parked at one of its own step points (pool swapped / before the log write / after it / between primary, index and freelist), the collector is released and runs to its end while the flush stays parked, then the flush finishes; only one of the two ever runs at a time, so the image taken at every hook point is a true point-in-time state; each is recovered under the same oracle; an eighth of these cases interleave two Flush calls instead (the first parked inside or between its stages, the second issued meanwhile: if it returns nil while the first is still parked, the image taken at that moment must already contain everything acknowledged before it). Legacy family (case index mod 16 == 9): the crash happens inside the Open that converts a legacy single-file store (generated as in C10, without dangling entries); every hook point of the conversion and its torn variants is recovered by opening again and must show the legacy store's contents, also after Flush and a rescanning reopen",
 		Assumptions: []string{
 			"process-crash model: everything handed to the kernel survives, user-space buffers are lost; the store uses no mmap",
 			"crash points are those of the executed single-threaded histories (flusher not started, collectors idle)",
@@ -176,7 +176,13 @@ func c03Case(c run.Ctx) (gen.Config, gen.Universe, []seq.Op, *rand.Rand) {
 			}
 			ops = append(ops, seq.Op{Kind: "flush"})
 			if i%2 == 1 {
-				ops = append(ops, seq.Op{Kind: "gci", A: r.IntN(2)})
+				// (in every other churn case half of the cycles are cut short by a budget of 1-6 step points, so
+				// that later cycles resume in the middle of the file sequence)
+				lim := 0
+				if (c.Index/32)%2 == 1 && r.IntN(2) == 0 {
+					lim = 1 + r.IntN(6)
+				}
+				ops = append(ops, seq.Op{Kind: "gci", A: r.IntN(2), B: lim})
 			}
 		}
 		ops = append(ops, seq.Op{Kind: "flush"}, seq.Op{Kind: "reopen", A: 1, B: 1})
@@ -602,6 +608,14 @@ func runC03Interleaved(c run.Ctx) *core.CaseResult {
 			useIdx, gcHook, flHook, order, nth = false, "mh.gc.freelist.before-mark", []string{"store.commit.after-primary", "index.flush.before-write"}[r.IntN(2)], 0, 1+r.IntN(3)
 		}
 	}
+	if (c.Index/4)%8 == 5 {
+		// flush x flush: a second Flush is issued while the first is parked inside (or between) its stages.
+		// If the second returns nil while the first is still parked, everything acknowledged before it
+		// must be durable in the image taken at that very moment.
+		order = 2
+		useIdx, gcHook = false, "(second Flush)"
+		flHook = []string{"mh.flush.swapped", "mh.flush.before-write", "store.commit.after-primary", "index.flush.swapped", "index.flush.before-write", "store.commit.after-index"}[r.IntN(6)]
+	}
 	rc.Tag = allow.freeze()
 	rc.Call = step
 	rc.SetEnabled(true)
@@ -622,7 +636,42 @@ func runC03Interleaved(c run.Ctx) *core.CaseResult {
 	}
 	attained := false
 	blocked := false
-	if order == 0 {
+	if order == 2 {
+		rt.AddGate(gfl)
+		go func() { flDone <- rn.S.Flush() }()
+		if gfl.WaitArrived(2 * time.Second) {
+			f2 := make(chan error, 1)
+			go func() { f2 <- rn.S.Flush() }()
+			select {
+			case err := <-f2:
+				// the second Flush returned while the first is still parked
+				if err != nil {
+					res.Violate("flush-error", "flush-error", step, nil, "second Flush failed: %v", err)
+				} else {
+					attained = true
+					commit(rn) // its return acknowledges everything before it as durable
+					rc.Tag = allow.freeze()
+					rc.Capture("second-flush-returned-first-flush-parked")
+					res.Add("second_flush_returned_while_first_parked", 1)
+				}
+				gfl.Open()
+				<-flDone
+			case <-time.After(300 * time.Millisecond):
+				// it waits for a lock the first one holds (as it should when the first is mid-stage): from
+				// here on the two run at once, stop imaging
+				rc.SetEnabled(false)
+				res.Add("second_flush_waited_for_first", 1)
+				blocked = true
+				gfl.Open()
+				<-flDone
+				<-f2
+			}
+		} else {
+			gfl.Open()
+			<-flDone
+		}
+		close(gcDone)
+	} else if order == 0 {
 		rt.AddGate(ggc)
 		go runGC()
 		if ggc.WaitArrived(2 * time.Second) {
@@ -735,7 +784,7 @@ func runC03Interleaved(c run.Ctx) *core.CaseResult {
 	res.Hash = core.HashStrings(cfg.String(), gcHook, flHook, fmt.Sprint(order), strings.Join(trace, ","))
 	res.NonTrivial = attained && len(seen) >= 5
 	if c.Index < 16 || res.Verdict == "violated" {
-		res.Sample = map[string]any{"case": c.ID(), "kind": "interleaved flush x collector", "config": cfg, "collector_parked_at": gcHook, "flush_parked_at": flHook, "order": []string{"collector first", "flush first"}[order], "attained": attained, "images": len(rc.Points), "ops": trace}
+		res.Sample = map[string]any{"case": c.ID(), "kind": "interleaved flush x collector", "config": cfg, "collector_parked_at": gcHook, "flush_parked_at": flHook, "order": []string{"collector first", "flush first", "flush x flush"}[order], "attained": attained, "images": len(rc.Points), "ops": trace}
 	}
 	return res
 }
